@@ -3,6 +3,7 @@ package props
 import (
 	"encoding/json"
 	"fmt"
+	"sort"
 	"testing"
 
 	"pgregory.net/rapid"
@@ -22,11 +23,12 @@ import (
 // and, on x86_64, with the x32 bit.
 
 type c06SizeCase struct {
-	Policy spec.Policy `json:"policy"`
-	Seed   uint64      `json:"seed"`
-	Pad    int         `json:"pad"`        // number of padding names
-	Where  string      `json:"where"`      // front / back / into:<group index>
-	PadAct uint32      `json:"pad_action"` // action of a new padding group
+	Policy   spec.Policy `json:"policy"`
+	Seed     uint64      `json:"seed"`
+	Pad      int         `json:"pad"`                 // number of padding names
+	Where    string      `json:"where"`               // front / back / into:<group index>
+	PadAct   uint32      `json:"pad_action"`          // action of a new padding group
+	PadOrder string      `json:"pad_order,omitempty"` // "" random subset / low / high (by syscall number)
 }
 
 func drawC06Size(t *rapid.T) c06SizeCase {
@@ -51,6 +53,9 @@ func drawC06Size(t *rapid.T) c06SizeCase {
 	default:
 		c.Where = fmt.Sprintf("into:%d", rapid.IntRange(0, len(c.Policy.Groups)-1).Draw(t, "intoGroup"))
 	}
+	// the padding names are a random subset, or the lowest / highest numbered free names (so that the syscalls the small
+	// policy speaks about lie above / below every added one)
+	c.PadOrder = []string{"", "", "low", "high"}[rapid.IntRange(0, 3).Draw(t, "padOrder")]
 	return c
 }
 
@@ -87,6 +92,20 @@ func checkC06Size(raw json.RawMessage) (ev.Result, error) {
 		}
 	}
 	pad := gen.Subset(free, c.Seed^0x9e3779b97f4a7c15, c.Pad)
+	if c.PadOrder == "low" || c.PadOrder == "high" {
+		tbl := oracle.Table(p.Arch)
+		sorted := append([]string(nil), free...)
+		sort.Slice(sorted, func(i, j int) bool {
+			if c.PadOrder == "low" {
+				return tbl[sorted[i]] < tbl[sorted[j]]
+			}
+			return tbl[sorted[i]] > tbl[sorted[j]]
+		})
+		if c.Pad < len(sorted) {
+			sorted = sorted[:c.Pad]
+		}
+		pad = sorted
+	}
 	if len(pad) == 0 {
 		return ev.Result{}, ev.Inconclusivef("no free names for padding")
 	}
